@@ -244,6 +244,7 @@ def run(chk):
     ao = repo.cls("AffineOptimizer").own("__call__")
     grp_calls2 = [U(n) for n in path_calls(ao, "group")]
     norm = lambda s_: s_.replace("axis=", "").replace("group_size=", "")
+    grouping_condition(chk, "C03.R5")
     chk.require("C03.R5", f"{repo.cls('AffineQuantizer').mod.rel}:{aq.lineno}", len(grp_calls) == 1 and len(grp_calls2) == 1 and norm(grp_calls[0]) == norm(grp_calls2[0]), f"quantizer groups with `{grp_calls}`, optimizer wrapper with `{grp_calls2}`", "AffineQuantizer.forward", "same grouping call", "grouped weights: scale layout and code layout disagree")
     # ---------------- R6
     n6 = 0
@@ -259,3 +260,30 @@ def run(chk):
     from . import c04_layout
     c04_layout.group_ungroup(chk, "C03.R5")
     chk.assume("amax/amin with a dim list reduce exactly those dims; storage ranges of the dtypes (table)")
+
+
+def grouping_condition(chk, rule):
+    """The optimizer wrapper and the quantizer group the tensor exactly when a group size is given: on every accepting path,
+    `group_size is None` <=> no group(...) call met.  (A fast path that skips the grouping on one side only - e.g. when the group
+    spans the whole axis - makes scales and codes disagree in shape.)"""
+    repo = chk.repo
+    for cname, mname in (("AffineOptimizer", "__call__"), ("AffineQuantizer", "forward")):
+        ci = repo.cls(cname)
+        fn = ci.own(mname)
+        qn = f"{cname}.{mname}"
+        n = 0
+        for p in paths_of(fn):
+            if p.end[0] == "raise":
+                continue
+            grouped = False
+            vals = [p.end[1]] + [x for ef in p.effects for x in ef if isinstance(x, ast.AST)] + list(p.env.values())
+            for v in vals:
+                if isinstance(v, ast.AST) and any(isinstance(n_, ast.Call) and U(n_.func) == "group" for n_ in ast.walk(v)):
+                    grouped = True
+            none = path_facts(p).get("group_size is None")
+            n += 1
+            ok = (none is True and not grouped) or (none is False and grouped)
+            conds = " & ".join(p.cond_texts())[:140]
+            chk.require(rule, f"{ci.mod.rel}:{p.end[2]}", ok, f"{qn} [{conds}]: group_size is None = {none}, tensor grouped = {grouped}", qn, "grouping applied iff a group size is given",
+                        "a group size for which one side skips the grouping (e.g. a group spanning the whole axis of a rank-3/4 weight): scales of shape (N,1,1) meet codes of shape (N*G, g) - wrong values or a tensor that cannot be dequantized")
+        chk.floor(rule, n, 2, f"{qn} accepting paths")
